@@ -167,6 +167,42 @@ def halfMatrixQ (g : Guard) (grid : List (List Rat)) (A : List (List Rat)) (incl
   if onlyUpper ∧ avail.any (fun i => decide (A.length ≤ i)) then throw "IndexError"
   pure (halfMatrix (fun x => decide (x ≠ 0)) (oppFn tbl) avail includeOpp onlyUpper A)
 
+/-! ## 4b. hypothesis validators (not code)
+
+Executable forms of the hypotheses of the theorems in `Props/C04.lean`; the driver evaluates them on every explored
+grid, `Lemmas/HalfFold.lean` proves that `true` implies the hypothesis. -/
+
+/-- No earlier row of the grid is `isclose` to a later one. -/
+def sepB (grid : List (List Rat)) : Bool :=
+  (List.range grid.length).all fun a => (List.range a).all fun b => !rowClose (grid.getD a []) (grid.getD b [])
+
+/-- Every row of `G` is in the upper hemisphere and its negative is not. -/
+def hupB (G : List (List Rat)) : Bool :=
+  (List.range G.length).all fun d => qInUpper (G.getD d []) && !qInUpper (negRow (G.getD d []))
+
+/-- The grid is the double cover `G ++ -G` of its first half. -/
+def coverB (grid : List (List Rat)) : Bool :=
+  let N := grid.length / 2
+  decide (grid.length = 2 * N) && decide (grid.drop N = (grid.take N).map negRow)
+
+/-- Entry `(i, j)` of a rational matrix (`0` outside). -/
+def entQ (A : List (List Rat)) (i j : Nat) : Rat := (A.getD i []).getD j 0
+
+def squareB (n : Nat) (A : List (List Rat)) : Bool :=
+  decide (A.length = n) && A.all fun row => decide (row.length = n)
+
+def symB (n : Nat) (A : List (List Rat)) : Bool :=
+  (List.range n).all fun a => (List.range n).all fun b => decide (entQ A a b = entQ A b a)
+
+/-- antipodal symmetry in the layout `G ++ -G`: `A (a ± N) (b ± N) = A a b`. -/
+def antiB (N : Nat) (A : List (List Rat)) : Bool :=
+  (List.range (2 * N)).all fun a => (List.range (2 * N)).all fun b =>
+    decide (entQ A (if a < N then a + N else a - N) (if b < N then b + N else b - N) = entQ A a b)
+
+/-- no cell touches itself or its own antipodal copy -/
+def diagB (N : Nat) (A : List (List Rat)) : Bool :=
+  (List.range (2 * N)).all fun a => decide (entQ A a a = 0) && decide (entQ A a (if a < N then a + N else a - N) = 0)
+
 /-! ## 5. the sign-folded quaternion angle (`utils.py:239-257`) -/
 
 /-- `np.clip(x, -1, 1)`. -/
